@@ -205,6 +205,9 @@ func NodeOf(v any) *sbom.Node {
 func EdgeOf(v any) *sbom.Edge {
 	m := v.(M)
 	e := &sbom.Edge{Type: sbom.Edge_Type(asInt(m["ty"])), From: asStr(m["src"])}
+	if _, has := m["tos"]; has {
+		e.To = []string{} // a target list that is written out, even empty, is an allocated one
+	}
 	for _, t := range asList(m["tos"]) {
 		e.To = append(e.To, asStr(t))
 	}
